@@ -55,6 +55,9 @@ def allowed_external(fn):
         return True
     if fn.startswith('core::option::Option::<T>::') and short in ('is_some', 'is_none'):
         return True
+    # the `?` operator on Option: value-preserving plumbing (Some(v) -> v, None -> return None)
+    if fn.startswith('<core::option::Option<T> as core::ops::') and short in ('branch', 'from_residual', 'from_output'):
+        return True
     return False
 
 
@@ -164,7 +167,11 @@ def d1(rep, f, c):
     def sink(b, bi, st, T):
         rv = st['rv']
         if 'bin' in rv and rv['bin'] in ARITH:
-            if any(l in T for o in (rv['l'], rv['r']) for l in operand_locals(o)):
+            # unsigned division / remainder / right shift by a non-zero constant can neither overflow nor panic
+            rc = rv['r'].get('const') if isinstance(rv['r'], dict) else None
+            safe = rv['bin'] in ('Div', 'Rem', 'Shr') and rc is not None and isinstance(rc.get('int'), int) and rc['int'] != 0 and \
+                'sint' not in rc and (rv['bin'] != 'Shr' or rc['int'] < 32)
+            if not safe and any(l in T for o in (rv['l'], rv['r']) for l in operand_locals(o)):
                 viol.append((b.name, sp_str(st['sp']), 'length-derived value is an operand of unchecked %s' % rv['bin']))
         if 'un' in rv and rv['un'] == 'Neg' and any(l in T for l in operand_locals(rv['x'])):
             viol.append((b.name, sp_str(st['sp']), 'length-derived value negated'))
